@@ -67,7 +67,7 @@ def _frac(v):
     if isinstance(v, float):
         if v != v or v in (float("inf"), float("-inf")):
             raise Inconclusive("non-finite float constant meets a symbolic value")
-        return Fraction(repr(v))
+        return Fraction(repr(float(v)))  # float(): numpy.float64 is a float subclass whose repr is not a literal
     if isinstance(v, Fraction):
         return v
     raise TypeError(type(v))
